@@ -328,6 +328,12 @@ func c17Menu() map[string]func() string {
 			v, e := m.XmlIndent("", " ")
 			return r(string(v), e)
 		},
+		"private-roundtrip-C": func() string {
+			// three levels, another (prefix, indent) pair than every other indenting operation of the menu
+			m, _ := mxj.NewMapXml([]byte(`<u><v><w n="1">1</w><w>2</w></v><z><y>3</y></z></u>`))
+			v, e := m.XmlIndent(" ", "\t")
+			return r(string(v), e)
+		},
 		"private-json-roundtrip-B": func() string {
 			m, e := mxj.NewMapJson([]byte(`{"u":[true,{"v":"w>"}],"t":null}`))
 			if e != nil {
@@ -419,7 +425,7 @@ func c17Init() {
 func c17Run(c *Ctx) {
 	mustBeDefault(c)
 	c17Init()
-	c.S.Rule = "layer 1+2 (purity, E-input): every read-only operation (41: all ValuesFor*/PathsFor*/Leaf*/Exists/Elements/Attributes/Root queries, all XML/JSON/gob encoders and Writer forms, Copy, StringIndent, NewMap, AnyXml, MapSeq encoders) x every Map template with <= N nodes over keys {r,k,-x,#text} plus MapSeqs decoded from XML documents Maps holding []byte values, and wide receivers (lists of 31, 32, 33, 64, 65 members with spare capacity, the key present deeper as well), with the whole receiver frozen: no monitored store into any container reachable from it, canonical dump unchanged, the package-level variables written are logged (reported as a counter; a synchronised cache is not a violation by itself); ascending and descending map order. layer 3 (interleavings, E-choice): a cooperative scheduler runs 2 threads (thorough: also 3) with 1-2 operations each from a menu of 22 (decode XML with cast, from plain readers incl. the raw form, decode sequence-XML, decode JSON and from a reader, Xml, XmlIndent, Json, Copy, ValuesForPath with wildcard, ValuesForKey, PathsForKey, LeafNodes, Gob round trip, MapSeq.Xml on shared read-only Maps, private round trips - XML, sequence-XML compact and indented, JSON - over documents that differ from one another in every name and value); scheduling points at every function entry, loop back-edge, map-iteration step and package-variable access of the instrumented mxj; ALL schedules with <= P preemptions; oracle per schedule: every thread's result equals its sequential result, the shared Maps are unchanged (dump + store monitor). layer 4 (supplementary): the same bodies free-running on the uninstrumented build under the Go race detector - first from a cold start (the first calls of the process run concurrently), then in rounds that also run 18 operations whose argument texts (tags, keys, paths, sub-key specs, key pairs) are new to the process, one text shared by all 8 goroutines and one private to each. non-trivial = schedules with at least one preemption."
+	c.S.Rule = "layer 1+2 (purity, E-input): every read-only operation (41: all ValuesFor*/PathsFor*/Leaf*/Exists/Elements/Attributes/Root queries, all XML/JSON/gob encoders and Writer forms, Copy, StringIndent, NewMap, AnyXml, MapSeq encoders) x every Map template with <= N nodes over keys {r,k,-x,#text} plus MapSeqs decoded from XML documents Maps holding []byte values, and wide receivers (lists of 31, 32, 33, 64, 65 members with spare capacity, the key present deeper as well), with the whole receiver frozen: no monitored store into any container reachable from it, canonical dump unchanged, the package-level variables written are logged (reported as a counter; a synchronised cache is not a violation by itself); ascending and descending map order. layer 3 (interleavings, E-choice): a cooperative scheduler runs 2 threads (thorough: also 3) with 1-2 operations each from a menu of 23 (decode XML with cast, from plain readers incl. the raw form, decode sequence-XML, decode JSON and from a reader, Xml, XmlIndent, Json, Copy, ValuesForPath with wildcard, ValuesForKey, PathsForKey, LeafNodes, Gob round trip, MapSeq.Xml on shared read-only Maps, private round trips - XML, sequence-XML compact and indented, JSON - over documents that differ from one another in every name and value, the indenting ones with different (prefix, indent) arguments and up to three levels); scheduling points at every function entry, loop back-edge, map-iteration step and package-variable access of the instrumented mxj; ALL schedules with <= P preemptions; oracle per schedule: every thread's result equals its sequential result, the shared Maps are unchanged (dump + store monitor). layer 4 (supplementary): the same bodies free-running on the uninstrumented build under the Go race detector - first from a cold start (the first calls of the process run concurrently), then in rounds that also run 18 operations whose argument texts (tags, keys, paths, sub-key specs, key pairs) are new to the process, one text shared by all 8 goroutines and one private to each. non-trivial = schedules with at least one preemption."
 	c.S.Assumptions = []string{"sequentially consistent interleavings at hooked points; conflicts through unhooked writes inside the standard library are left to the race-detector pass", "package options are not changed concurrently (as the property states)"}
 	// ---- layers 1 and 2
 	n := 5
